@@ -1257,4 +1257,122 @@ Proof.
       split; [cbn [mt_okj]; auto|constructor; auto].
 Qed.
 
+Lemma num_single_inv u rest f v st' :
+  parse_value pf f (st (mk (if num_is_float u then TFloat else TInt, u) :: rest)) = Some (v, st') ->
+  perrs st' = [] ->
+  v = mk_num pf None u /\ st' = st rest /\
+  (if num_is_float u then match pf u with Some _ => true | None => false end else true) = true.
+Proof.
+  intros H He. destruct f as [|f]; [discriminate|]. rewrite parse_value_S in H. unfold pv_body in H.
+  rewrite st_cons in H. cbn [cur pty plit mkp fst snd] in H. unfold mk_num.
+  destruct (num_is_float u).
+  - unfold parse_float_value in H. cbn [plit mkp fst snd] in H. rewrite p_next_mkSt in H.
+    destruct (pf u) as [x|].
+    + injection H as <- <-. auto.
+    + injection H as _ <-. exfalso. exact (perrs_add_ne _ _ He).
+  - rewrite p_next_mkSt in H. injection H as <- <-. auto.
+Qed.
+
+Theorem parse_json_tree : forall t, PJ t.
+Proof.
+  induction t as [|b|u|body|w|fi m IHf IHm|w|fi m IHf IHm] using jt_ind'; intros rest f v st' H He.
+  - destruct f as [|f]; [discriminate|]. rewrite parse_value_S in H. unfold pv_body in H.
+    cbn [FT map app] in H. rewrite st_cons in H. cbn [cur pty plit mkp fst snd] in H.
+    change (list_N_eqb lit_null lit_true) with false in H.
+    change (list_N_eqb lit_null lit_false) with false in H.
+    change (list_N_eqb lit_null lit_null) with true in H. cbv iota in H.
+    rewrite p_next_mkSt in H. injection H as <- <-. repeat split.
+  - destruct f as [|f]; [discriminate|]. rewrite parse_value_S in H. unfold pv_body in H.
+    cbn [FT map app] in H. rewrite st_cons in H. cbn [cur pty plit mkp fst snd] in H.
+    destruct b.
+    + change (list_N_eqb lit_true lit_true) with true in H. cbv iota in H.
+      rewrite p_next_mkSt in H. injection H as <- <-. repeat split.
+    + change (list_N_eqb lit_false lit_true) with false in H.
+      change (list_N_eqb lit_false lit_false) with true in H. cbv iota in H.
+      rewrite p_next_mkSt in H. injection H as <- <-. repeat split.
+  - (* number *)
+    cbn [FT astj okj] in *. destruct u as [|c r].
+    + cbn [num_ft map app] in H. destruct (num_single_inv [] rest f v st' H He) as (-> & -> & Hok).
+      repeat split; try exact Hok.
+    + destruct (N.eqb_spec c 45) as [->|Hc].
+      * change (num_ft (45 :: r)) with [(TOperator, [45]); (if num_is_float r then TFloat else TInt, r)] in H.
+        cbn [map app] in H.
+        destruct f as [|f]; [discriminate|]. rewrite parse_value_S in H. unfold pv_body in H.
+        rewrite st_cons in H. cbn [cur pty plit mkp fst snd] in H.
+        change (lit_is (mk (TOperator, [45])) [43] || lit_is (mk (TOperator, [45])) [45]) with true in H.
+        cbv iota in H. rewrite p_next_mkSt in H. rewrite st_cons in H. cbn [cur pty plit mkp fst snd] in H.
+        cbn [num_ast]. unfold mk_num, num_okb.
+        destruct (num_is_float r).
+        -- unfold parse_float_value in H. cbn [plit mkp fst snd] in H. rewrite p_next_mkSt in H.
+           destruct (pf r) as [x|].
+           ++ injection H as <- <-. repeat split.
+           ++ injection H as _ <-. exfalso. exact (perrs_add_ne _ _ He).
+        -- rewrite p_next_mkSt in H. injection H as <- <-. repeat split.
+      * rewrite (num_ft_other c r Hc) in H. cbn [map app] in H.
+        destruct (num_single_inv (c :: r) rest f v st' H He) as (-> & -> & Hok).
+        assert (E : num_ast pf (c :: r) = mk_num pf None (c :: r)).
+        { unfold num_ast. destruct c as [|p]; [reflexivity|].
+          repeat (destruct p as [p|p|]; try reflexivity). contradiction. }
+        assert (E2 : num_okb pf (c :: r) = (if num_is_float (c :: r)
+                                            then match pf (c :: r) with Some _ => true | None => false end
+                                            else true)).
+        { unfold num_okb. destruct c as [|p]; [reflexivity|].
+          repeat (destruct p as [p|p|]; try reflexivity). contradiction. }
+        rewrite E, E2. repeat split; try exact Hok.
+  - (* string *)
+    destruct f as [|f]; [discriminate|]. rewrite parse_value_S in H. unfold pv_body in H.
+    cbn [FT map app] in H. rewrite st_cons in H. cbn [cur pty plit mkp fst snd] in H.
+    unfold parse_string_value in H. cbn [plit mkp fst snd] in H. rewrite p_next_mkSt in H.
+    cbn [astj okj]. unfold unq. destruct (go_unquote (34 :: body)) as [bs|].
+    + injection H as <- <-. repeat split; discriminate.
+    + injection H as _ <-. exfalso. exact (perrs_add_ne _ _ He).
+  - (* [] *)
+    destruct f as [|f]; [discriminate|]. rewrite parse_value_S in H. unfold pv_body in H.
+    cbn [FT map app] in H. rewrite st_cons in H. cbn [cur pty plit mkp fst snd] in H.
+    change (lit_is (mk (TOperator, [91])) [43] || lit_is (mk (TOperator, [91])) [45]) with false in H.
+    change (lit_is (mk (TOperator, [91])) [123]) with false in H.
+    change (lit_is (mk (TOperator, [91])) [91]) with true in H. cbv iota in H.
+    rewrite p_next_mkSt in H.
+    destruct f as [|f]; [discriminate|]. rewrite parse_list_entries_S in H. unfold ple_body in H.
+    rewrite see_op_at in H. cbn [ttype_eqb existsb list_N_eqb N.eqb Pos.eqb andb orb] in H.
+    rewrite expect_op_at in H. injection H as <- <-. repeat split.
+  - (* array *)
+    rewrite FT_arr in H. cbn [map app] in H.
+    destruct f as [|f]; [discriminate|]. rewrite parse_value_S in H. unfold pv_body in H.
+    rewrite st_cons in H. cbn [cur pty plit mkp fst snd] in H.
+    change (lit_is (mk (TOperator, [91])) [43] || lit_is (mk (TOperator, [91])) [45]) with false in H.
+    change (lit_is (mk (TOperator, [91])) [123]) with false in H.
+    change (lit_is (mk (TOperator, [91])) [91]) with true in H. cbv iota in H.
+    rewrite p_next_mkSt in H.
+    destruct (parse_list_entries pf f _ []) as [[es st2]|] eqn:E; [|discriminate].
+    injection H as <- <-.
+    pose proof (proj2 (proj2 (parse_all_reach pf f)) _ _ _ _ E) as R.
+    assert (He2 : perrs st2 = []) by (eapply no_err_back; [apply reach_expect_op|exact He]).
+    destruct (ple_inv m IHm fi IHf [] rest f es st2 E He2) as (-> & -> & Hokf & Hokm).
+    rewrite expect_op_at. cbn [snd app astj]. split; [reflexivity|]. split; [reflexivity|].
+    apply okj_arr. auto.
+  - (* {} *)
+    destruct f as [|f]; [discriminate|]. rewrite parse_value_S in H. unfold pv_body in H.
+    cbn [FT map app] in H. rewrite st_cons in H. cbn [cur pty plit mkp fst snd] in H.
+    change (lit_is (mk (TOperator, [123])) [43] || lit_is (mk (TOperator, [123])) [45]) with false in H.
+    change (lit_is (mk (TOperator, [123])) [123]) with true in H. cbv iota in H.
+    rewrite p_next_mkSt in H.
+    destruct f as [|f]; [discriminate|]. rewrite parse_object_entries_S in H. unfold poe_body in H.
+    rewrite see_op_at in H. cbn [ttype_eqb existsb list_N_eqb N.eqb Pos.eqb andb orb] in H.
+    rewrite expect_op_at in H. injection H as <- <-. repeat split.
+  - (* object *)
+    rewrite FT_obj in H. cbn [map app] in H.
+    destruct f as [|f]; [discriminate|]. rewrite parse_value_S in H. unfold pv_body in H.
+    rewrite st_cons in H. cbn [cur pty plit mkp fst snd] in H.
+    change (lit_is (mk (TOperator, [123])) [43] || lit_is (mk (TOperator, [123])) [45]) with false in H.
+    change (lit_is (mk (TOperator, [123])) [123]) with true in H. cbv iota in H.
+    rewrite p_next_mkSt in H.
+    destruct (parse_object_entries pf f _ []) as [[es st2]|] eqn:E; [|discriminate].
+    injection H as <- <-.
+    assert (He2 : perrs st2 = []) by (eapply no_err_back; [apply reach_expect_op|exact He]).
+    destruct (poe_inv m IHm fi IHf [] rest f es st2 E He2) as (-> & -> & Hokf & Hokm).
+    rewrite expect_op_at. cbn [snd app]. rewrite astj_obj. split; [reflexivity|]. split; [reflexivity|].
+    apply okj_obj. auto.
+Qed.
+
 End ParseJson.
